@@ -11,7 +11,8 @@
    Configurations: `cur` is the code as it is now; `old` is the code before the repairs bf317fcd (RemoteJob._from_dict
    restores job_context from the stored body), 13320b52 (JobGroup.add prepares and validates the payload before
    the append, with or without keyword arguments) and 9afb11d4 (_launch_jobs writes once more on leaving its loop,
-   normally or by an exception, iff the jobs differ from what was last written or read). `old` is kept only for the historical `_old_code` witnesses.
+   normally or by an exception, iff the jobs differ from what was last written or read) and 65ec16e2 (get_results
+   does the same on leaving its per-job loop). `old` is kept only for the historical `_old_code` witnesses.
 
    Faithful quirks (each is visible in the Python source):
    * _to_dict stores status None for an unsent job, and no body for a SUCCESS job;
@@ -141,10 +142,12 @@ Definition dummy_pay : payload := mkpay None None 0.
 (* which version of the code *)
 Record cfg := mkcfg { restore_ctx : bool;      (* bf317fcd *)
                       add_validates : bool;    (* 13320b52 *)
-                      write_on_exit : bool }.  (* 9afb11d4 *)
-Definition cur : cfg := mkcfg true true true.
-Definition old : cfg := mkcfg false false false.
-Definition before_9afb11d4 : cfg := mkcfg true true false.
+                      write_on_exit : bool;    (* 9afb11d4 *)
+                      results_write : bool }.  (* 65ec16e2 *)
+Definition cur : cfg := mkcfg true true true true.
+Definition old : cfg := mkcfg false false false false.
+Definition before_9afb11d4 : cfg := mkcfg true true false false.
+Definition before_65ec16e2 : cfg := mkcfg true true true false.
 
 (* JobGroup._build_remote_job + RemoteJob._from_dict *)
 Definition from_disk (c : cfg) (d : djob) : job :=
@@ -350,15 +353,16 @@ Proof. repeat decide equality. Defined.
 (* 9afb11d4: `finally: self._write_to_file_if_changed()` around the loop of _launch_jobs — on normal exit and on an
    exception, the group is written once more iff its image differs from what this object last wrote or read (which is
    the file content: only this object writes the file) *)
+(* JobGroup._write_to_file_if_changed, in a `finally` *)
+Definition write_if_changed (r : mach * outcome) : mach * outcome :=
+  let (m, o) := r in
+  match save (mem m) with
+  | None => (m, Raised E_TYPE)
+  | Some d => if djobs_eq_dec d (disk m) then (mkm (mem m) (disk m) (scr m) (rlog m) false, o)
+              else (mkm (mem m) d (scr m) (rlog m ++ [RWrite]) false, o)
+  end.
 Definition finish (c : cfg) (r : mach * outcome) : mach * outcome :=
-  if write_on_exit c then
-    let (m, o) := r in
-    match save (mem m) with
-    | None => (m, Raised E_TYPE)
-    | Some d => if djobs_eq_dec d (disk m) then (mkm (mem m) (disk m) (scr m) (rlog m) false, o)
-                else (mkm (mem m) d (scr m) (rlog m ++ [RWrite]) false, o)
-    end
-  else r.
+  if write_on_exit c then write_if_changed r else r.
 
 Definition launch (c : cfg) (rerun seq repl : bool) (m : mach) : mach * outcome :=
   if rerun then
@@ -454,13 +458,15 @@ Fixpoint results_loop (pre post : list job) (sc : script) (lg : list req) (dirty
       else results_loop (pre ++ [j]) post' sc lg dirty
   end.
 
-Definition get_results (m : mach) : mach * outcome :=
+(* 65ec16e2: the per-job loop runs under `try/finally: self._write_to_file_if_changed()` *)
+Definition get_results (c : cfg) (m : mach) : mach * outcome :=
   let '(m1, o) := update_statuses m in
   match o with
   | Raised e => (m1, Raised e)
   | Returned =>
       let '(l, sc, lg, dy, o2) := results_loop [] (mem m1) (scr m1) (rlog m1) false in
-      (mkm l (disk m1) sc lg dy, o2)
+      let r := (mkm l (disk m1) sc lg dy, o2) in
+      if results_write c then write_if_changed r else r
   end.
 
 (* JobGroup.track_progress: list_active_jobs() (a refresh pass), then refresh passes until no job counts as
@@ -498,7 +504,7 @@ Definition step (c : cfg) (m0 : mach) (o : op) : mach * outcome :=
   | ORun seq => launch c false seq false m
   | ORerun seq repl => launch c true seq repl m
   | OProgress => update_statuses m
-  | OGetResults => get_results m
+  | OGetResults => get_results c m
   | OTrack => track m
   | OReadd k =>
       match nth_error (mem m) k with
